@@ -22,7 +22,7 @@ from ufl.core.expr import Expr
 from ufl.corealg.map_dag import map_expr_dag
 
 from ufv import num as N
-from ufv.core import proved, undecided, violated
+from ufv.core import bounded_ok, proved, undecided, violated
 from ufv.den import World, components, den, envs
 from ufv.nodes import templates
 from ufv.num import Unsupported
@@ -182,6 +182,45 @@ def build(run):
                 pass
         return proved("exec", vcs=2, sample="complex literal and Imag node are rejected in real mode")
     run.add("real-mode/rejects-imag-and-complex-literals", rm_literals, kind="proof")
+
+    # ---- real mode, through the entry points (a contract on the handlers is only worth what the entry point runs them on)
+    def rm_entry():
+        import ufl
+        from ufl import conj, dx, imag, inner, real
+        from ufl.algorithms import compute_form_data
+        from ufv import elements as E
+        V = ufl.FunctionSpace(tri, E.LagrangeElement(ufl.triangle, 1))
+        f, u, v = ufl.Coefficient(V), ufl.TrialFunction(V), ufl.TestFunction(V)
+        z = C.ComplexValue(2 + 3j)
+        cases = [   # (name, integrand, must_be_rejected)
+            ("complex literal, no conj/real/imag node", z * u * v, True), ("complex literal times coefficient", C.ComplexValue(1j) * f * v, True),
+            ("complex literal and conj", z * u * conj(v), True), ("complex literal under sqrt", ufl.sqrt(z * z) * f * v, True),
+            ("imag node", imag(f) * v, True), ("imag of product", imag(f * u) * v, True),
+            ("conj only", u * conj(v), False), ("real only", real(f) * u * v, False), ("inner (conj inside)", inner(f * u, v), False),
+            ("plain real form", f * u * v, False),
+        ]
+        n = 0
+        for name, itg, reject in cases:
+            form = itg * dx
+            routes = [("remove_complex_nodes(expr)", lambda: [remove_complex_nodes(itg)]),
+                      ("remove_complex_nodes(form)", lambda: [i_.integrand() for i_ in remove_complex_nodes(form).integrals()]),
+                      ("compute_form_data(complex_mode=False)", lambda: [i_.integrand() for i_ in compute_form_data(form, complex_mode=False).preprocessed_form.integrals()])]
+            for rname, route in routes:
+                n += 1
+                try:
+                    outs = route()
+                except ValueError:
+                    if reject:
+                        continue
+                    return violated(f"real mode rejects a real-valued form ({name}) via {rname}", reproduced=True, replay={"integrand": str(itg), "route": rname})
+                left = [type(nd).__name__ for o_ in outs for nd in ufl.corealg.traversal.unique_pre_traversal(o_)
+                        if isinstance(nd, (C.Conj, C.Real, C.Imag, C.ComplexValue))]
+                if reject or left:
+                    return violated(f"real mode: {rname} accepted '{name}' ({itg}); complex nodes left in the result: {sorted(set(left))}",
+                                    reproduced=True, replay={"integrand": str(itg), "route": rname, "left": left})
+        return bounded_ok(n, f"{len(cases)} integrands x 3 entry points", sample="complex literals / Imag rejected, Conj/Real removed, nothing complex left")
+    run.function(remove_complex_nodes)
+    run.add("real-mode/entry-points", rm_entry, kind="bounded")
 
     def canary():
         a = Opq("a")    # complex-valued opaque: Im need not vanish -> must be refuted
